@@ -87,6 +87,13 @@ func (r *Parser) Next(f *Field) bool {
 // Err returns the last read error. At the end of input
 // it will always be equal to io.EOF.
 func (r *Parser) Err() error {
+	if r.inputScanner != nil {
+		// A read error takes precedence: an incomplete field at the end of the input
+		// is unexpected only if the input ended cleanly.
+		if err := r.inputScanner.Err(); err != nil {
+			return err
+		}
+	}
 	if err := r.fieldScanner.Err(); err != nil {
 		return err
 	}
@@ -95,7 +102,7 @@ func (r *Parser) Err() error {
 		// We need it inside the client, to know when to retry.
 		return io.EOF
 	}
-	return r.inputScanner.Err()
+	return nil
 }
 
 // Buffer sets the buffer used to scan the input.
